@@ -85,8 +85,13 @@ class Eng:
         self.hist, self.hops = [], []
         for idx, ins in enumerate(self.inserts):
             if hfac is not None and ins.get('created'):
-                root = len(self.hist)
                 recs = [tuple(r) for r in hfac.operators]
+                # one engine that is not touched at all until the factory has been edited (first USE after the edits) ...
+                self.hist.append(dict(how='create(), first used after all edits', engine=hfac.create(), root=len(self.hist),
+                                      k=idx, records=recs))
+                self.hops.append(dict(op='create'))
+                # ... and one that is copied at once
+                root = len(self.hist)
                 early = hfac.create()
                 self.hist.append(dict(how='create()', engine=early, root=root, k=idx, records=recs))
                 self.hops.append(dict(op='create'))
